@@ -4,6 +4,7 @@ CONSTANTS
   MaxPow = 30
   Families = {"enc", "sweep", "read", "partial", "sub"}
   Big = TRUE
+  SweepSet <- SweepT
   WSizes <- WMenuQ
   WNames = {0}
   WMaxLen = 0
